@@ -8,6 +8,7 @@ pub(crate) mod verif_kani {
     impl MemArray {
         pub(crate) fn verif_any() -> Self { MemArray(unsafe { Box::<[Word; 1 << 16]>::new_uninit().assume_init() }) }
     }
+    impl Word { pub(crate) const ZERO_INIT: Word = Word { data: 0, init: 0xFFFF }; }
     impl RegFile {
         pub(crate) fn verif_any() -> Self { RegFile(kani::any()) }
     }
